@@ -99,7 +99,7 @@ struct Outcome {           // what one execution of a scenario looked like from 
 };
 struct CallPlan { int fn; int obj; Vec<int> vals; Str dev; int task; bool extra; int scope; bool shortForm; int xget; bool midRoot; };   // xget: 0, or one more read of the returned value through getter number xget, whatever the stored type
 struct ExpPlan { int fn; int count; int flags; int obj; Vec<int> vals; int ret; int scope; };      // flags: 1 ignoreOtherParameters, 2 named scope, 4 short form (last parameter not specified, and not passed by its calls)
-struct Scenario { bool strict, ignoreOther, useScope, preFail; bool nestedCmp /* comparators make a mock call of their own */; bool unmodOut /* the int output parameter is expected unmodified; calls may then pass no destination (NULL) */; bool crashOn /* crashOnFailure switched on: the crash method (a counter here) must be asked for by the same failures through both interfaces */; bool otherVal /* also read a value through the other mock support (known finding C19-support-level-value-of-other-scope) */; int rounds; int type2 /* fn6's object parameter uses a second custom type: same equality function, other to-string */, tol /* 0 none, else index into tolPool for fn3's double parameter */; Vec<ExpPlan> exps; Vec<CallPlan> calls; Vec<Op> data; };
+struct Scenario { bool strict, ignoreOther, useScope, preFail; bool nestedCmp /* comparators make a mock call of their own */; bool scopeCopier /* the custom type's copier is installed through the named scope only */; bool unmodOut /* the int output parameter is expected unmodified; calls may then pass no destination (NULL) */; bool crashOn /* crashOnFailure switched on: the crash method (a counter here) must be asked for by the same failures through both interfaces */; bool otherVal /* also read a value through the other mock support (known finding C19-support-level-value-of-other-scope) */; int rounds; int type2 /* fn6's object parameter uses a second custom type: same equality function, other to-string */, tol /* 0 none, else index into tolPool for fn3's double parameter */; Vec<ExpPlan> exps; Vec<CallPlan> calls; Vec<Op> data; };
 
 static const char* objType(const Scenario& sc) { return sc.type2 ? "MyType2" : "MyType"; }
 // how many parameters an expectation specifies: all, or all but the last for ignoreOtherParameters (functions with two or more) and for the short form (functions with one or more)
@@ -153,7 +153,7 @@ struct CppFront : public Front {
     MockSupport& m(const Scenario& sc, int scope = 0) { return (sc.useScope || scope) ? mock("scope1") : mock(); }
     void begin(const Scenario& sc) {
         static MyTypeComparator cmp; static MyTypeCopier cp;
-        mock().installComparator("MyType", cmp); mock().installCopier("MyType", cp);
+        mock().installComparator("MyType", cmp); if (sc.scopeCopier) mock("scope1").installCopier("MyType", cp); else mock().installCopier("MyType", cp);
         static MyType2Comparator cmp2; mock().installComparator("MyType2", cmp2); mock().installCopier("MyType2", cp);
         mock("scope1");                                  // the named scope exists before anything recursive is switched on
         if (sc.strict) m(sc).strictOrder();
@@ -320,7 +320,7 @@ struct CFront : public Front {
     const char* id() { return "c"; }
     MockSupport_c* m(const Scenario& sc, int scope = 0) { return (sc.useScope || scope) ? mock_scope_c("scope1") : mock_c(); }
     void begin(const Scenario& sc) {
-        mock_c()->installComparator("MyType", myTypeEqualC, myTypeToStringC); mock_c()->installCopier("MyType", myTypeCopyC);
+        mock_c()->installComparator("MyType", myTypeEqualC, myTypeToStringC); if (sc.scopeCopier) mock_scope_c("scope1")->installCopier("MyType", myTypeCopyC); else mock_c()->installCopier("MyType", myTypeCopyC);
         mock_c()->installComparator("MyType2", myTypeEqualC, myType2ToStringC); mock_c()->installCopier("MyType2", myTypeCopyC);
         mock_scope_c("scope1");
         if (sc.strict) m(sc)->strictOrder();
@@ -559,7 +559,7 @@ struct Engine : public vf::Engine {
         for (int s = 0; s < nScen; s++) {
             Group G; G.tag = "scenario";
             bool strict = w.chance(1, 4), ignoreOther = w.chance(1, 5), scope = w.chance(1, 5);
-            G.args.push_back(strict); G.args.push_back(ignoreOther); G.args.push_back(scope); G.args.push_back(w.chance(1, cfront ? 6 : 10)); G.args.push_back(cfront && w.chance(1, 6) ? 2 : 1); G.args.push_back(cfront && w.chance(1, 5)); G.args.push_back(cfront && w.chance(1, 5) ? (int64_t)w.range(1, 3) : 0); G.args.push_back(cfront && w.chance(1, 12)); G.args.push_back(cfront && w.chance(1, 6)); G.args.push_back(cfront && w.chance(1, 6)); G.args.push_back(cfront && w.chance(1, 6));
+            G.args.push_back(strict); G.args.push_back(ignoreOther); G.args.push_back(scope); G.args.push_back(w.chance(1, cfront ? 6 : 10)); G.args.push_back(cfront && w.chance(1, 6) ? 2 : 1); G.args.push_back(cfront && w.chance(1, 5)); G.args.push_back(cfront && w.chance(1, 5) ? (int64_t)w.range(1, 3) : 0); G.args.push_back(cfront && w.chance(1, 12)); G.args.push_back(cfront && w.chance(1, 6)); G.args.push_back(cfront && w.chance(1, 6)); G.args.push_back(cfront && w.chance(1, 6)); G.args.push_back(cfront && w.chance(1, 8));
             bool mixedScopes = !strict && !scope && w.chance(1, 4), shortForms = w.chance(1, 5);
             int nFn = (int)w.range(1, 4); int fns[4]; for (int i = 0; i < nFn; i++) fns[i] = (int)w.below(N_FN);
             int nExp = (int)w.small(1, 12);
@@ -639,7 +639,7 @@ struct Engine : public vf::Engine {
 
     // -------------------------------------------------------------------------------------------- model
     static void buildScenario(const Group& G, Scenario& sc) {
-        sc.strict = G.arg(0) != 0; sc.ignoreOther = G.arg(1) != 0; sc.useScope = G.arg(2) != 0; sc.preFail = G.arg(3) != 0; sc.rounds = G.arg(4, 1) == 2 ? 2 : 1; sc.type2 = (int)G.arg(5); sc.tol = (int)(G.arg(6) & 3); sc.otherVal = G.arg(7) != 0; sc.crashOn = G.arg(8) != 0; sc.nestedCmp = G.arg(9) != 0; sc.unmodOut = G.arg(10) != 0;
+        sc.strict = G.arg(0) != 0; sc.ignoreOther = G.arg(1) != 0; sc.useScope = G.arg(2) != 0; sc.preFail = G.arg(3) != 0; sc.rounds = G.arg(4, 1) == 2 ? 2 : 1; sc.type2 = (int)G.arg(5); sc.tol = (int)(G.arg(6) & 3); sc.otherVal = G.arg(7) != 0; sc.crashOn = G.arg(8) != 0; sc.nestedCmp = G.arg(9) != 0; sc.unmodOut = G.arg(10) != 0; sc.scopeCopier = G.arg(11) != 0;
         for (size_t i = 0; i < G.ops.size(); i++) {
             const Op& o = G.ops[i];
             if (o.kind == M_EXPECT) { ExpPlan e; e.fn = (int)(o.a % N_FN); e.count = (int)o.b; e.flags = (int)o.c; e.obj = (int)o.d; e.vals = parseIdx(o.s); e.vals.resize((size_t)FNS[e.fn].np, 0); e.ret = atoi(o.s2.c_str()); e.scope = (e.flags & 2) ? 1 : 0; sc.exps.push_back(e); }
